@@ -307,7 +307,11 @@ class Report:
             "known_findings": [{"key": k, "what": w} for k, w in self.known],
         }
         os.makedirs(EVIDENCE, exist_ok=True)
-        with open(os.path.join(EVIDENCE, f"{self.prop}.json"), "w") as fh:
+        evdir = EVIDENCE
+        if getattr(self, "is_replay", False):
+            evdir = os.path.join(os.path.dirname(EVIDENCE), "work", "replay-evidence")
+            os.makedirs(evdir, exist_ok=True)
+        with open(os.path.join(evdir, f"{self.prop}.json"), "w") as fh:
             json.dump(ev, fh, indent=1, sort_keys=True)
             fh.write("\n")
         for k, w in self.known:
